@@ -1691,3 +1691,20 @@ Proof.
   pose proof (ac_go_runs_ok c pre _ st Hmn (ac_init_wf c) (ac_init_runs_ok c) Hgo r s t o E0) as [A B].
   specialize (B Hm). pose proof (ac_con_cadence c r s t segs st o Hm Hwf E0 Hc). lia.
 Qed.
+
+(* ------------------------------------------------------------------ glue: ac_accepts and ac_go *)
+
+(* acceptance of a whole history = the acceptor runs through it from its (well-formed) initial
+   state; every prefix / segment then runs through as well, which is the form the theorems above use *)
+Theorem ac_accepts_go : forall c t1 t2,
+  ac_accepts c (t1 ++ t2) = true ->
+  ac_wf (as_res (ac_init c)) /\
+  exists st1 st2, ac_go c (ac_init c) t1 = Some st1 /\ ac_wf (as_res st1) /\ ac_go c st1 t2 = Some st2.
+Proof.
+  intros c t1 t2 H. split; [apply ac_init_wf|]. unfold ac_accepts in H.
+  destruct (ac_run c (ac_init c) 0 (t1 ++ t2)) as [stf|] eqn:R; [|discriminate].
+  apply ac_run_go in R. rewrite ac_go_app in R.
+  destruct (ac_go c (ac_init c) t1) as [st1|] eqn:G1; [|discriminate].
+  exists st1, stf. split; [reflexivity|]. split; [|assumption].
+  eapply ac_go_wf; [apply ac_init_wf | eassumption].
+Qed.
